@@ -269,7 +269,7 @@ def run(chk):
     for f in findings:
         wit = f["witness"]
         case, mode = R.Case.from_json(wit["case"]), wit.get("mode", "paralleldo")
-        res = Runner(reps=(20 if thorough else 8)).analyse([(case, mode)])[0]
+        res = Runner(reps=(20 if thorough else 4)).analyse([(case, mode)])[0]
         if res["real"]["status"] != "accepted":
             continue
         bad, ev = failing(res)
